@@ -2,7 +2,38 @@
 
 package app
 
-import "github.com/glebziz/fs_db/internal/di"
+import (
+	"context"
+	"fmt"
+	"net"
+	"sync"
+
+	"github.com/glebziz/fs_db/internal/di"
+)
 
 // VerifContainer returns the dependency container of the server (verification builds only).
 func (a *app) VerifContainer() *di.Container { return a.container }
+
+// VerifServe is Run on a listener the caller already holds, so that a harness that starts many
+// servers in parallel never has to guess a free port (verification builds only).
+func (a *app) VerifServe(ctx context.Context, lis net.Listener) error {
+	var wg sync.WaitGroup
+	defer func() {
+		wg.Wait()
+	}()
+
+	wg.Add(1)
+	go func() {
+		defer wg.Done()
+
+		<-ctx.Done()
+		a.server.GracefulStop()
+	}()
+
+	err := a.server.Serve(lis)
+	if err != nil {
+		return fmt.Errorf("serve: %w", err)
+	}
+
+	return nil
+}
